@@ -294,6 +294,36 @@ Lemma center_wf : forall a m, wf m ->
   match center a m with Ok ms => Forall wf ms | Declared => True | Crash => False end.
 Proof. intros a m W. apply modify_attr_wf; [apply center_data_length|assumption]. Qed.
 
+(* ================================================================ ScaleAttributeAlongNormal, SliceByPlane *)
+Lemma along_normal_length : forall amt dn d, length (along_normal amt dn d) = length d.
+Proof.
+  intros amt dn d. unfold along_normal. rewrite map_length, combine_length, seq_length. apply Nat.min_id.
+Qed.
+
+Lemma scale_along_normal_wf : forall a nrm amt m, wf m ->
+  match scale_along_normal a nrm amt m with Ok ms => Forall wf ms | Declared => True | Crash => False end.
+Proof.
+  intros a nrm amt m W. unfold scale_along_normal. destruct (lookup (3%N, nrm) (attrs m)) as [dn|]; [|exact I].
+  apply modify_attr_wf; [intros d; apply along_normal_length|assumption].
+Qed.
+
+Lemma slice_side_wf : forall m p, wf m -> topology m = Triangle ->
+  wf (remove_unref (set_indices m (filter_idx Triangle p (indices m)))).
+Proof.
+  intros m p W T. pose proof W as [WA [WI [WC WS]]].
+  apply remove_unref_wf, set_indices_wf; [assumption| |].
+  - unfold filter_idx. apply units_filter_Forall, WI.
+  - rewrite T. unfold filter_idx. apply units_filter_count_ok.
+Qed.
+
+Lemma slice_wf : forall a clip m, wf m ->
+  match slice a clip m with Ok ms => Forall wf ms | Declared => True | Crash => False end.
+Proof.
+  intros a clip m W. unfold slice. destruct (topology m) eqn:T; try exact I.
+  destruct (lookup (3%N, a) (attrs m)) as [d|]; [|exact I].
+  constructor; [apply slice_side_wf; assumption|]. constructor; [apply slice_side_wf; assumption|constructor].
+Qed.
+
 (* ================================================================ Mesh.Append *)
 Lemma zeros_length : forall k n, length (zeros k n) = n.
 Proof. intros k n. unfold zeros. apply repeat_length. Qed.
@@ -533,6 +563,8 @@ Proof.
     + apply rotate_wf, W1.
     + apply apply_trs_wf, W1.
     + apply center_wf, W1.
+    + apply slice_wf, W1.
+    + apply scale_along_normal_wf, W1.
   - inversion F as [|? ? W1 F2]; subst. inversion F2 as [|? ? W2 _]; subst.
     destruct o; cbn [step]; try exact I. apply append_wf; assumption.
   - destruct o; exact I.
@@ -557,6 +589,40 @@ Proof.
   pose proof (step_wf o ins (pick_wf _ _ _ F E) P) as S.
   destruct (step o ins) as [ms| |]; [|apply IH, F|apply IH, F].
   apply IH. apply Forall_app. split; assumption.
+Qed.
+
+(* results are values: a later operation never changes an earlier result - the pool only grows *)
+Theorem run_extends : forall h pool, exists ext, run h pool = pool ++ ext.
+Proof.
+  induction h as [|[o args] h IH]; intros pool; cbn [run].
+  - exists []. rewrite app_nil_r. reflexivity.
+  - destruct (pick pool args) as [ins|]; [|apply IH].
+    destruct (op_pre o ins); [|apply IH].
+    destruct (step o ins) as [ms| |]; [|apply IH|apply IH].
+    destruct (IH (pool ++ ms)) as [ext E]. exists (ms ++ ext). rewrite E, app_assoc. reflexivity.
+Qed.
+
+Corollary run_keeps : forall h pool i m, nth_error pool i = Some m -> nth_error (run h pool) i = Some m.
+Proof.
+  intros h pool i m H. destruct (run_extends h pool) as [ext E]. rewrite E.
+  rewrite nth_error_app1; [exact H|]. apply nth_error_Some. rewrite H. discriminate.
+Qed.
+
+(* ... so a result that was well-formed when it was returned is well-formed after any continuation of the
+   history, and it is the same mesh *)
+Corollary run_keeps_wf : forall h1 h2 pool i m, Forall wf pool ->
+  nth_error (run h1 pool) i = Some m -> nth_error (run h2 (run h1 pool)) i = Some m /\ wf m.
+Proof.
+  intros h1 h2 pool i m F H. split; [apply run_keeps, H|].
+  pose proof (run_wf h1 pool F) as W. rewrite Forall_forall in W. apply W. eapply nth_error_In, H.
+Qed.
+
+Lemma run_app : forall h1 h2 pool, run (h1 ++ h2) pool = run h2 (run h1 pool).
+Proof.
+  induction h1 as [|[o args] h1 IH]; intros h2 pool; cbn [run app]; [reflexivity|].
+  destruct (pick pool args) as [ins|]; [|apply IH].
+  destruct (op_pre o ins); [|apply IH].
+  destruct (step o ins); apply IH.
 Qed.
 
 (* ================================================================ corollaries *)
